@@ -186,9 +186,12 @@ def run_unit(unit, tier):
         # with a K-member model the K-member Union orders are the permutations explored
         for d in trees:
             for tg in tags:
-                if tg is not None and d[0] != 'm':
+                if tg is not None and d[0] == 'q':
                     continue
-                t = d if tg is None else ('m', tg, d[2])
+                if tg is not None and d[0] == 's' and not fam.startswith('enum-union'):
+                    continue
+                # class tags on mappings; in the enum / string-like models on scalars too ('!En red')
+                t = d if tg is None else (d[0], tg, d[2])
                 text, back = case.R.checked(t)
                 if text is None:
                     res.hist['render-mismatch'] += 1
